@@ -151,7 +151,7 @@ func (c *Conn) SendMsg(m interface{}) (err error) {
 	select {
 	case <-c.ctx.Done():
 		return c.ctx.Err()
-	case c.out <- raw:
+	case c.out <- append([]byte{}, raw...): // the receiver owns (and later overwrites) what it is handed
 		if c.log != nil {
 			c.log.add(c.name, raw)
 		}
@@ -175,7 +175,11 @@ func (c *Conn) RecvMsg(m interface{}) error {
 		if !ok {
 			return io.EOF
 		}
-		return p.UnmarshalVT(raw)
+		err := p.Unmarshal(raw)
+		for i := range raw { // the receive buffer is reused once RecvMsg returns
+			raw[i] = 0xaa
+		}
+		return err
 	}
 }
 
